@@ -63,10 +63,26 @@ func famIdentity(w *World, c *Case, rng *rand.Rand) {
 	tunnels := map[string]*tinfo{} // by serving ident
 	if !multi {
 		openMD := genMD(rng, "open")
+		if w.Cfg.Dir == "forward" && rng.Intn(2) == 0 {
+			// a client stream interceptor on the carrying connection adds
+			// headers when the tunnel stream is opened: they are part of what
+			// opened the tunnel, for handlers and for callers alike
+			w.Conn.SetClientInterceptor("x-intercept-token", "tok-"+fmt.Sprint(rng.Intn(1000)), "x-intercept-bin", string([]byte{1, 2, 3}))
+			w.Stat("identity_with_client_interceptor", 1)
+		}
 		if err := w.Open(openMD); err != nil {
 			w.Violate("C11", "open-failed", "open: %v", err)
 			w.Finish()
 			return
+		}
+		if kv := w.Conn.interceptKV.Load(); kv != nil {
+			openMD = openMD.Copy()
+			if openMD == nil {
+				openMD = metadata.MD{}
+			}
+			for i := 0; i+1 < len(*kv); i += 2 {
+				openMD.Append((*kv)[i], (*kv)[i+1])
+			}
 		}
 		ti := &tinfo{openMD: openMD, ch: w.TCh}
 		switch w.Cfg.Dir {
